@@ -891,6 +891,28 @@ theorem reject_float_nonbinary_label (segs : List Nat) (t : SegType) (ht : t ≠
   simp only [castValues, ht, this, ↓reduceIte]
   split <;> rfl
 
+/-- fix f08a76b: a binary 2-D/3-D float mask holding a 1 while segment number 1 is not described -/
+theorem reject_undescribed_float (segs : List Nat) (t : SegType) (ht : t ≠ .fractional) (ps : List (List Rat))
+    (pl : List Rat) (hpl : pl ∈ ps) (h1 : (1 : Rat) ∈ pl) (hnot : 1 ∉ segs) :
+    castMask segs t (.fltLabel ps) = .error .value := by
+  apply castMask_error_of_values
+  have hany : (ps.any fun pl => pl.any fun x => decide (x = 1)) = true :=
+    List.any_eq_true.mpr ⟨pl, hpl, List.any_eq_true.mpr ⟨1, h1, by simp⟩⟩
+  simp only [castValues, ht, ↓reduceIte]
+  split
+  · rfl
+  · split
+    · rfl
+    · rw [if_pos ⟨hany, hnot⟩]
+
+/-- fix d437594: a 2-D/3-D array of fractions with more than one described segment -/
+theorem reject_float_fraction_several (segs : List Nat) (ps : List (List Rat)) (h : 1 < segs.length) :
+    castMask segs .fractional (.fltLabel ps) = .error .value := by
+  apply castMask_error_of_values
+  have h' : segs.length > 1 := h
+  simp only [castValues, ↓reduceIte, h']
+  split <;> rfl
+
 theorem reject_float_nonbinary_stack (segs : List Nat) (t : SegType) (ht : t ≠ .fractional)
     (ps : List (List (List Rat))) (pl : List (List Rat)) (ch : List Rat) (x : Rat) (hpl : pl ∈ ps) (hch : ch ∈ pl)
     (hx : x ∈ ch) (hr : 0 < x ∧ x < 1) : castMask segs t (.fltStack ps) = .error .value := by
